@@ -19,6 +19,10 @@ import MW.Lemmas.PendHistRun
 import MW.Lemmas.PendHistObs
 import MW.Lemmas.PendHistEx
 import MW.Lemmas.PendHistCredRun
+import MW.Lemmas.PendHistCredEx
+import MW.Lemmas.PendHistNotifyEx
+import MW.Lemmas.PendHistComposeEx
+import MW.Lemmas.PendHistNotifySpecEx
 import MW.Lemmas.TxmgrCodecRec
 namespace MW.Props.C09
 open MW MW.Model.Ledger MW.Lemmas.LedgerPending
@@ -431,7 +435,8 @@ theorem residue_of_credit_relation (e : Spec.Pending.Env) (s : Store) (P : List 
     the specification's `pendingCredits`.  `HOKc` = `HOK` with the receive domain WITHOUT its residue clause (now a
     theorem) and — this is the partial part — with the credit relation after each DISCONNECT step as an explicit
     hypothesis: that the per-record loop of Rollback re-creates the records of the un-confirmed transactions (from the
-    mined credit table, whose values are C01's) is not proved; receive, connect and the purge of disconnect are. -/
+    mined credit table, whose values are C01's) was not proved in Round 5; receive, connect and the purge of disconnect
+    were.  Round 6 proves it: `credit_refines` / `C09_full_credit_relation` below need no such hypothesis. -/
 theorem credit_refines_partial (rank : TxId → Nat) (E : HEnv) (w : HW) (evs : List HEv) (H : HInvC rank E w)
     (hD : ∀ x ∈ worldsH E w evs, HOKc rank E x.1 x.2) :
     HInvC rank E (runH E w evs) ∧
@@ -496,6 +501,75 @@ theorem exDomainC : ∀ x ∈ worldsH exE exW0 exEvs, HOKc exRankH exE x.1 x.2 :
 
 example : (runH exE exW0 exEvs).s.pendCred = [] ∧ pendingCredits exE.env (runH exE exW0 exEvs).sp.pend = [] := by decide
 
+-- ---------------------------------------------------------------- Round 6: the DISCONNECT step, hence all histories
+
+open MW.Lemmas.PendHist.CredRb in
+/-- ROLLBACK RE-CREATES THE RECORDS, the loop.  The per-record loop of Rollback over the recorded ids `l` of block `b`
+    (distinct, each with a readable record of a transaction of `b`; from ANY store) is a `CredGrow` over the
+    transactions `t ∈ b.txs` with `t.id ∈ l`: a pending-credit record after the loop was there before or sits at
+    (t.id, j), `t` non-coinbase, `j` an output index, and carries amount / class / script hash of the credit the START
+    store has under (t.id, block, j); every such credit yields a record; the deposit bucket gains exactly the keys
+    (wallet, isBinding, t.id, j) of the staking / binding outputs paying an owned address whose credit was present;
+    nothing is removed; credits of other transactions keep amount / class / script hash -/
+theorem rollback_loop_recreates_credits (c : Ctx) (b : Block) (blk : BlockMeta) (hbnd : (b.txs.map (·.id)).Nodup)
+    (l : List TxId) (a a' : RbAcc) (h : l.foldlM (MW.Lemmas.PendHist.rbStep c blk) a = .ok a') (hnd : l.Nodup)
+    (hrec : ∀ id ∈ l, ∃ loc t, AMap.get a.s.txrecs (id, blk) = some loc ∧ c.node.txByFileLoc loc = some t ∧
+      t.id = id ∧ t ∈ b.txs) :
+    CredGrow c.own blk (fun t => t ∈ b.txs ∧ t.id ∈ l) a.s a'.s := rbLoopC c b blk hbnd l a a' h hnd hrec
+
+/-- the hypotheses are met by the tip block B2 of the concrete history below: its block record lists T1 only (the
+    coinbase C2 pays a stranger), the ids of the block are distinct -/
+example : (exB2.txs.map (·.id)).Nodup ∧ ["T1"].Nodup := by decide
+
+open MW.Lemmas.PendHist.CredRb in
+/-- DISCONNECT keeps the credit relation (store level): from a store satisfying C01's `Inv` for the chain `c0 ++ [b]`,
+    `PendRel` and `CredRel` for `P`, after `disconnectBlock` of the tip — whose pending records are the list `P'`
+    (`disconnect_refines_inv` provides `P' = onChainMoved … P`) — `CredRel` holds for `P'`.  The values of the
+    re-created records are C01's (`MW.Props.C01.inv_credit_values`), their presence `inv_cb_credits`. -/
+theorem disconnect_refines_credits (rank : TxId → Nat) (E : HEnv) (n : Node) (s s' : Store) (c0 : List Block) (b : Block)
+    (P P' : List Tx)
+    (hI : Inv (E.ctx n) s (c0 ++ [b])) (hV : ChainValid E.own (c0 ++ [b])) (hH : HeightsOK (c0 ++ [b]))
+    (hk : AMap.get n.known b.id = some b)
+    (hrel : PendRel rank s P) (hcr : CredRel E.env s P) (hcons : Consistent (c0 ++ [b]) P)
+    (hbnd : (b.txs.map (·.id)).Nodup) (hrk : ∀ t ∈ b.txs, ∀ i ∈ t.ins, rank i.tx < rank t.id)
+    (h : disconnectBlock (E.ctx n) s b.height = .ok s')
+    (hrel' : PendRel rank s' P') : CredRel E.env s' P' :=
+  disconnect_cred_store rank E n s s' c0 b P P' hI hV hH hk hrel hcr hcons hbnd hrk h hrel'
+
+open MW.Lemmas.PendHist.CredRb in
+/-- … and at history level: a disconnect step inside the domain of `pending_refines` keeps `HInvC` -/
+theorem disconnect_step_credits (rank : TxId → Nat) (E : HEnv) (w : HW) (H : HInvC rank E w)
+    (D : HOK rank E w .disconnect) : HInvC rank E (stepH E w .disconnect) :=
+  hinvc_step_full H .disconnect D
+
+open MW.Lemmas.PendHist.CredRb in
+/-- CREDIT RELATION ALONG ALL HISTORIES (Round 6; `credit_refines_partial` without its hypothesis).  From a world
+    satisfying `HInvC`, for every history inside `HOKf` = the domain `HOK` of `pending_refines` with the receive domain
+    WITHOUT its residue clause — nothing is assumed about the two buckets —, after the history `HInv` and `CredRel` hold,
+    and the raw dump `pcred` of the model is the specification's `pendingCredits` -/
+theorem credit_refines (rank : TxId → Nat) (E : HEnv) (w : HW) (evs : List HEv) (H : HInvC rank E w)
+    (hD : ∀ x ∈ worldsH E w evs, HOKf rank E x.1 x.2) :
+    HInvC rank E (runH E w evs) ∧
+    (∀ id j amt, (∃ cr, AMap.get (runH E w evs).s.pendCred (id, j) = some cr ∧ cr.amt = amt) ↔
+      (id, j, amt) ∈ pendingCredits E.env (runH E w evs).sp.pend) :=
+  have h := hinvc_run_full evs w H hD
+  ⟨h, h.cred.pcred h.inv.rel.nodup⟩
+
+open MW.Lemmas.PendHist.CredRb in
+/-- non-vacuity: the history of `pending_refines` EXTENDED BY A DISCONNECT of B2 (T1 is un-confirmed: Rollback re-creates
+    its pending credit from the mined one) is inside `HOKf` from the fresh wallet; after it both pending sets are
+    {T1, T2}, the pending-credit bucket holds exactly (T1, 0) ↦ amount 10, standard, script hash A1 = the spec's -/
+example : HInvC exRankH exE exW0 := exHInvC0
+open MW.Lemmas.PendHist.CredRb in
+example : ∀ x ∈ worldsH exE exW0 exEvs6, HOKf exRankH exE x.1 x.2 := exDomainF
+open MW.Lemmas.PendHist.CredRb in
+example : HOK exRankH exE exW5 .disconnect := exD6
+open MW.Lemmas.PendHist.CredRb in
+example :
+    ((runH exE exW0 exEvs6).s.pending.map (·.1), (runH exE exW0 exEvs6).sp.pend.map (·.id)) = (["T1", "T2"], ["T2", "T1"]) ∧
+    (runH exE exW0 exEvs6).s.pendCred.map (fun e => (e.1, e.2.amt, e.2.cls, e.2.sh)) = [(("T1", 0), 10, .standard, "A1")] ∧
+    pendingCredits exE.env (runH exE exW0 exEvs6).sp.pend = [("T1", 0, 10)] := exRun6
+
 end credits
 
 -- ------------------------------------------------------------------ what is NOT proved here
@@ -517,14 +591,81 @@ theorem notify_extend_is_connect (E : HEnv) (w : HW) (b : Block) (hprev : b.prev
   | error e => simp [stepH, hf, bind, Except.bind]
   | ok r => simp [stepH, hf, bind, Except.bind, pure, Except.pure]
 
+open MW.Lemmas.PendHist MW.Lemmas.PendHist.Notify in
+/-- NOTIFY, the trace WITH HEIGHTS AND BLOCKS (Round 6; structural, no hypothesis): a successful notification is `n`
+    `disconnectBlock` calls at the heights `v.best.height, v.best.height - 1, …` followed by the `filterBlock` calls on the
+    blocks `bs`, all with the ready set read at the fork point -/
+theorem notify_trace_heights (c : Ctx) (s s' : Store) (v v' : Vol) (b : Block)
+    (h : processBlock c s v b = (s', v', true)) :
+    ∃ sm n bs, DReachFrom c v.best.height s sm n ∧ CReachL c (readyWallets sm c.wallets) sm s' bs :=
+  processBlock_trace_h c s s' v v' b h
+
+open MW.Lemmas.PendHist MW.Lemmas.PendHist.Notify in
+/-- NOTIFY, the trace IS A RUN OF `stepH` (Round 6): in a world satisfying `HInv` whose follower's best block is the tip of
+    the wallet's chain (`v.best.height + 1` = length of the chain; C01's `processBlock_reaches` keeps `v.best = tipMeta`),
+    such a trace is the run of the typed events  n × disconnect ++ connect bs  — every disconnect IS `stepH .disconnect`
+    (the wallet's tip), every connect IS `stepH (.connect b)` (same ready set) — provided these events are inside the
+    domain `HOK` of `pending_refines`; `HInv` holds after it -/
+theorem notify_trace_is_run (rank : TxId → Nat) (E : HEnv) (w : HW) (H : HInv rank E w)
+    (hbest : w.v.best.height + 1 = w.sp.chain.length) (sm s' : Store) (n : Nat) (bs : List Block)
+    (hd : DReachFrom (E.ctx w.node) w.v.best.height w.s sm n)
+    (hc : CReachL (E.ctx w.node) (readyWallets sm E.wallets) sm s' bs)
+    (hD : ∀ x ∈ worldsH E w (notifyEvs n bs), HOK rank E x.1 x.2) :
+    (runH E w (notifyEvs n bs)).s = s' ∧ HInv rank E (runH E w (notifyEvs n bs)) :=
+  trace_run w H hbest hd hc hD
+
+open MW.Lemmas.PendHist MW.Lemmas.PendHist.Notify in
+/-- … hence A SUCCESSFUL NOTIFICATION (direct extension or reorganisation) IS A RUN OF `stepH`: it determines `n` and `bs`
+    such that, whenever the events  n × disconnect ++ connect bs  are inside the domain, the store `processBlock`
+    returns is the store of that run; so `pending_refines` / `credit_refines` speak about the function the driver executes
+    (the MODEL side of `notify`; the specification side of that run is the block-by-block composition of
+    `onChainMoved`, see `C09_full_notify_refinement` for what stays open) -/
+theorem notify_is_run (rank : TxId → Nat) (E : HEnv) (w : HW) (H : HInv rank E w)
+    (hbest : w.v.best.height + 1 = w.sp.chain.length) (b : Block) (s' : Store) (v' : Vol)
+    (h : processBlock (E.ctx w.node) w.s w.v b = (s', v', true)) :
+    ∃ n bs, (∀ x ∈ worldsH E w (notifyEvs n bs), HOK rank E x.1 x.2) →
+      (runH E w (notifyEvs n bs)).s = s' ∧ HInv rank E (runH E w (notifyEvs n bs)) :=
+  notify_run w H hbest b s' v' h
+
+open MW.Lemmas.PendHist MW.Lemmas.PendHist.Notify MW.Lemmas.PendHist.Cred in
+/-- … and with the credit relation: `HInvC` before the notification gives `HInvC` after it -/
+theorem notify_is_run_credits (rank : TxId → Nat) (E : HEnv) (w : HW) (H : HInvC rank E w)
+    (hbest : w.v.best.height + 1 = w.sp.chain.length) (b : Block) (s' : Store) (v' : Vol)
+    (h : processBlock (E.ctx w.node) w.s w.v b = (s', v', true)) :
+    ∃ n bs, (∀ x ∈ worldsH E w (notifyEvs n bs), HOK rank E x.1 x.2) →
+      (runH E w (notifyEvs n bs)).s = s' ∧ HInvC rank E (runH E w (notifyEvs n bs)) :=
+  notify_run_cred w H hbest b s' v' h
+
+open MW.Lemmas.PendHist MW.Lemmas.PendHist.Notify MW.Lemmas.PendHist.Cred in
+/-- non-vacuity, a REORGANISING notification: wallet chain G-B1-B2 (T1 confirmed in B2, T2 pending), follower's best block
+    B2, node on G-B1-B2x, notify B2x.  The world satisfies `HInvC` and the best-block hypothesis, the notification
+    succeeds, its trace is one disconnect at height 2 and the connect of B2x, both events are inside the domain, and the
+    run ends in the store of the trace = the store `processBlock` returns (T1 and T2 pending, T1's credit back) -/
+example : HInvC exRankH exE exV ∧ exV.v.best.height + 1 = exV.sp.chain.length ∧
+    (processBlock (exE.ctx exV.node) exV.s exV.v exB2x).2.2 = true := ⟨exHInvCV, exBestV, exNotifyOk⟩
+open MW.Lemmas.PendHist MW.Lemmas.PendHist.Notify in
+example : DReachFrom (exE.ctx exV.node) exV.v.best.height exV.s exS6 1 ∧
+    CReachL (exE.ctx exV.node) (readyWallets exS6 exE.wallets) exS6 exS7 [exB2x] ∧
+    (∀ x ∈ worldsH exE exV (notifyEvs 1 [exB2x]), HOK exRankH exE x.1 x.2) := ⟨exTraceD, exTraceC, exDomainV⟩
+open MW.Lemmas.PendHist MW.Lemmas.PendHist.Notify in
+example :
+    ((processBlock (exE.ctx exV.node) exV.s exV.v exB2x).1.pending.map (·.1),
+     (runH exE exV (notifyEvs 1 [exB2x])).s.pending.map (·.1),
+     (runH exE exV (notifyEvs 1 [exB2x])).sp.pend.map (·.id),
+     (runH exE exV (notifyEvs 1 [exB2x])).s.pendCred.map (fun e => (e.1, e.2.amt))) =
+    (["T1", "T2"], ["T1", "T2"], ["T2", "T1"], [(("T1", 0), 10)]) := exRunV_obs
+
 /-- STILL OPEN (1): for a reorganising notification the driver's `notify` applies ONE `onChainMoved` from the old to the
     new chain, the model (and `pending_refines`) move block by block (`notify_is_steps`).  The statement that the one-shot
     settle has the same MEMBERS as the composition of the single-block moves is not proved.  (Round 4 stated it with `=`
     on lists; that form is not the right one: the one-shot form appends the un-confirmed transactions of the disconnected
     blocks in block order, the composition in reverse block order — every observation sorts.)  It is FALSE for a stale
     notification while a pending transaction conflicts with the wallet's lagging chain (notes/C09.md, Rounds 4 and 5).
-    Also open: that the disconnect steps of `notify_is_steps` are at the wallet's tip (`stepH .disconnect`) — needs
-    `v.best` = tip of the wallet's chain in the invariant (C01's `processBlock_reaches` has it). -/
+    Round 6 closed the other half: the disconnect steps of `notify_is_steps` ARE at the wallet's tip (`stepH .disconnect`)
+    and the notification's store is the store of the run of `stepH` (`notify_is_run`, with `v.best` = tip of the wallet's
+    chain as a hypothesis on the world; C01's `processBlock_reaches` maintains it).  Round 6b: in THIS shape (Domain over
+    the two whole chains) the statement is refuted (`notify_refinement_def_refuted`: false below the fork point); the
+    corrected statement `C09_notify_refinement_at_fork` is PROVED (`notify_refinement`, domain `NotifyDom`). -/
 def C09_full_notify_refinement (Domain : Spec.Pending.Env → List Block → List Block → List Tx → Prop) : Prop :=
   ∀ e c0 (old new : List Block) P, Domain e (c0 ++ old) (c0 ++ new) P →
     ∀ t, t ∈ Spec.Pending.onChainMoved e (c0 ++ old) (c0 ++ new) P ↔
@@ -535,19 +676,130 @@ def C09_full_notify_refinement (Domain : Spec.Pending.Env → List Block → Lis
              Spec.Pending.onChainMoved e cp.1 (c0 ++ old.take (old.length - k - 1)) cp.2))
           (c0 ++ old, P))).2
 
-/-- STILL OPEN (2): the credit relation along ALL histories of `pending_refines`, i.e. `credit_refines_partial` without the
-    hypothesis at the disconnect steps.  Proved: receive, connect, the purge of disconnect, and — given the relation —
-    the statement below (`credit_refines_partial`, second component).  Missing: the per-record loop of Rollback
-    re-creates the pending credits / deposit records of the un-confirmed transactions with the values of the mined
-    credit table. -/
-def C09_full_credit_relation : Prop :=
+open MW.Lemmas.PendHist.Compose in
+/-- THE `def` ABOVE IS TOO STRONG AS SHAPED (Round 6b): its `Domain` sees only the two whole chains, so it cannot know the
+    fork point, and the statement quantifies over EVERY common prefix `c0`.  Below the fork point it is false: with
+    c0 = [], old = new = G-B1 (nothing moves) the one-shot move keeps the pending Tt, the composition disconnects G — the
+    parent Pp of Tt spends G's coinbase — and drops it (`cx_below_fork`, by evaluation).  So no `Domain` that admits this
+    (unmoved, perfectly ordinary) situation satisfies the `def`; the composition is only ever run from the fork point
+    (`notify_trace_heights`: the model disconnects down to the fork point), the corrected statement is
+    `C09_notify_refinement_at_fork`. -/
+theorem notify_refinement_def_refuted (Domain : Spec.Pending.Env → List Block → List Block → List Tx → Prop)
+    (hD : Domain cxE ([] ++ cxChain) ([] ++ cxChain) [cxT]) : ¬ C09_full_notify_refinement Domain :=
+  fun h => cx_refutes (h cxE [] cxChain cxChain [cxT] hD cxT)
+
+/-- the corrected statement: the domain knows the decomposition (`c0` = the common part up to the fork point) -/
+def C09_notify_refinement_at_fork
+    (Domain : Spec.Pending.Env → List Block → List Block → List Block → List Tx → Prop) : Prop :=
+  ∀ e c0 (old new : List Block) P, Domain e c0 old new P →
+    ∀ t, t ∈ Spec.Pending.onChainMoved e (c0 ++ old) (c0 ++ new) P ↔
+      t ∈ ((List.range new.length).foldl (fun (cp : List Block × List Tx) k =>
+          (c0 ++ new.take (k + 1), Spec.Pending.onChainMoved e cp.1 (c0 ++ new.take (k + 1)) cp.2))
+        ((List.range old.length).foldl (fun (cp : List Block × List Tx) k =>
+            (c0 ++ old.take (old.length - k - 1),
+             Spec.Pending.onChainMoved e cp.1 (c0 ++ old.take (old.length - k - 1)) cp.2))
+          (c0 ++ old, P))).2
+
+open MW.Lemmas.PendHist.Compose in
+/-- NOTIFY, SPECIFICATION SIDE (Round 6b): ONE `onChainMoved old new` (what the driver's spec applies per notification) has
+    the same MEMBERS as the block-by-block composition (what `pending_refines` / `notify_is_run` use), inside `NotifyDom`:
+    `c0` is the fork point (no block of the old branch on the new chain); ids of the pending transactions and of the
+    transactions of the old branch pairwise distinct; the pending list consistent with the old chain; old branch valid
+    (block ids distinct, a block's transactions neither on nor in conflict with the chain below, parents of block
+    transactions on the chain, no transaction spends the coinbase of a higher block); every prefix of the new chain valid
+    w.r.t. the candidates (a candidate on it is not conflicted by it, spends no coinbase of the old branch, has its
+    parents on it).  Proof: `settle_extend` / `settle_shrink` (settle in two steps = settle once, through `Lost`). -/
+theorem notify_refinement : C09_notify_refinement_at_fork NotifyDom :=
+  fun e c0 old new P D t => notify_compose e c0 old new P D t
+
+open MW.Lemmas.PendHist MW.Lemmas.PendHist.Compose MW.Lemmas.PendHist.Notify in
+/-- the domain is met by the reorganising notification above (G-B1-B2 → G-B1-B2x, fork point G-B1, T2 pending); both
+    sides are {T2, T1} there -/
+example : NotifyDom exE.env [exG, exB1] [exB2] [exB2x] [exT2] := exNotifyDom
+
+open MW.Lemmas.PendHist.Compose in
+/-- NECESSITY of the coinbase clause of `NotifyDom` (Round 6c), AT the fork point: when the new branch carries the SAME
+    coinbase transaction as the old one (G-B1(C1) → G-B1x(C1)-B2x(C2x, P), P pending spends C1:0, T pending spends P:0) the
+    one-shot move confirms P and keeps T, the composition drops both (disconnecting B1 removes C1: P orphaned, T its
+    child).  The model and the REAL CODE follow the composition: corpus-candidates/C09-same-coinbase-both-branches.ops,
+    `./check C09 --replay`: impl = model `-`, spec `T:r`.  The clause is not implied by the validity of each branch. -/
+theorem notify_dom_coinbase_necessary :
+    ((Spec.Pending.onChainMoved scE ([scG] ++ scOld) ([scG] ++ scNew) [scP, scT]).map (·.id) = ["T"] ∧
+     (connFold scE [scG] scNew (discFold scE [scG] scOld ([scG] ++ scOld, [scP, scT]))).2.map (·.id) = []) ∧
+    ¬ NotifyDom scE [scG] scOld scNew [scP, scT] := ⟨sc_same_coinbase, sc_not_notifyDom⟩
+
+open MW.Lemmas.PendHist MW.Lemmas.PendHist.Cred MW.Lemmas.PendHist.Notify MW.Lemmas.PendHist.Compose
+  MW.Lemmas.PendHist.NotifySpec MW.Lemmas.Ledger in
+/-- NOTIFY REFINES ONE `onChainMoved`, for a given trace (Round 6c).  World satisfying `HInvC`, follower's best block = the
+    wallet's tip, wallet chain `c0 ++ old`; a trace of `old.length` disconnects and the connects of `bs` ending in the store
+    `s'` (`notify_trace_heights` provides it for a successful `processBlock`); the events inside the domain `HOK` of
+    `pending_refines`; the move inside `NotifyDom` (EXPLICIT hypothesis: `HOK` does not imply it — the coinbase clause,
+    `notify_dom_coinbase_necessary`; the other clauses are facts of two valid branches).  Then `s'` holds the books of
+    `c0 ++ bs` and its pending buckets represent (`PendRel`, `CredRel`) the pending list after ONE
+    `Spec.Pending.onChainMoved (c0 ++ old) (c0 ++ bs)` — the move the driver's specification applies per notification. -/
+theorem notify_trace_refines (rank : TxId → Nat) (E : HEnv) (w : HW) (H : HInvC rank E w)
+    (hbest : w.v.best.height + 1 = w.sp.chain.length) (sm s' : Store) (n : Nat) (bs : List Block)
+    (hd : DReachFrom (E.ctx w.node) w.v.best.height w.s sm n)
+    (hc : CReachL (E.ctx w.node) (readyWallets sm E.wallets) sm s' bs)
+    (c0 old : List Block) (hch : w.sp.chain = c0 ++ old) (hlen : old.length = n)
+    (hD : ∀ x ∈ worldsH E w (notifyEvs n bs), HOK rank E x.1 x.2)
+    (hN : NotifyDom E.env c0 old bs w.sp.pend) :
+    Inv (E.ctx w.node) s' (c0 ++ bs) ∧
+    PendRel rank s' (Spec.Pending.onChainMoved E.env (c0 ++ old) (c0 ++ bs) w.sp.pend) ∧
+    CredRel E.env s' (Spec.Pending.onChainMoved E.env (c0 ++ old) (c0 ++ bs) w.sp.pend) :=
+  trace_refines w H hbest hd hc c0 old hch hlen hD hN
+
+open MW.Lemmas.PendHist MW.Lemmas.PendHist.Cred MW.Lemmas.PendHist.Notify MW.Lemmas.PendHist.Compose
+  MW.Lemmas.PendHist.NotifySpec MW.Lemmas.Ledger in
+/-- … and for the function the driver executes: a successful `processBlock` determines `n` and `bs` with the above -/
+theorem notify_refines (rank : TxId → Nat) (E : HEnv) (w : HW) (H : HInvC rank E w)
+    (hbest : w.v.best.height + 1 = w.sp.chain.length) (b : Block) (s' : Store) (v' : Vol)
+    (h : processBlock (E.ctx w.node) w.s w.v b = (s', v', true)) :
+    ∃ n bs, ∀ c0 old, w.sp.chain = c0 ++ old → old.length = n →
+      (∀ x ∈ worldsH E w (notifyEvs n bs), HOK rank E x.1 x.2) → NotifyDom E.env c0 old bs w.sp.pend →
+      Inv (E.ctx w.node) s' (c0 ++ bs) ∧
+      PendRel rank s' (Spec.Pending.onChainMoved E.env (c0 ++ old) (c0 ++ bs) w.sp.pend) ∧
+      CredRel E.env s' (Spec.Pending.onChainMoved E.env (c0 ++ old) (c0 ++ bs) w.sp.pend) :=
+  MW.Lemmas.PendHist.NotifySpec.notify_refines w H hbest b s' v' h
+
+open MW.Lemmas.PendHist MW.Lemmas.PendHist.Cred MW.Lemmas.PendHist.Notify MW.Lemmas.PendHist.Compose
+  MW.Lemmas.PendHist.NotifySpec MW.Lemmas.Ledger in
+/-- non-vacuity: the reorganising notification G-B1-B2 → G-B1-B2x meets every hypothesis of `notify_trace_refines`
+    (`HInvC`, best block, trace, decomposition, `HOK`, `NotifyDom`); the conclusion on it; the one-shot list is {T2, T1} -/
+example : HInvC exRankH exE exV ∧ exV.v.best.height + 1 = exV.sp.chain.length ∧
+    DReachFrom (exE.ctx exV.node) exV.v.best.height exV.s exS6 1 ∧
+    CReachL (exE.ctx exV.node) (readyWallets exS6 exE.wallets) exS6 exS7 [exB2x] ∧
+    exV.sp.chain = [exG, exB1] ++ [exB2] ∧
+    (∀ x ∈ worldsH exE exV (notifyEvs 1 [exB2x]), HOK exRankH exE x.1 x.2) ∧
+    NotifyDom exE.env [exG, exB1] [exB2] [exB2x] exV.sp.pend :=
+  ⟨exHInvCV, exBestV, exTraceD, exTraceC, exChainV, exDomainV, exNotifyDomV⟩
+open MW.Lemmas.PendHist MW.Lemmas.PendHist.Notify MW.Lemmas.PendHist.NotifySpec in
+example : (Spec.Pending.onChainMoved exE.env ([exG, exB1] ++ [exB2]) ([exG, exB1] ++ [exB2x]) exV.sp.pend).map (·.id) = ["T2", "T1"] ∧
+    exS7.pending.map (·.1) = ["T1", "T2"] ∧
+    (processBlock (exE.ctx exV.node) exV.s exV.v exB2x).1.pending.map (·.1) = ["T1", "T2"] := exRefines_obs
+
+/-- FORMERLY OPEN (2), PROVED in Round 6: the credit relation along ALL histories of `pending_refines`, i.e.
+    `credit_refines_partial` without the hypothesis at the disconnect steps.  Receive, connect and the purge of disconnect
+    were proved in Round 5; the missing piece — the per-record loop of Rollback re-creates the pending credits / deposit
+    records of the un-confirmed transactions with the values of the mined credit table — is `rollback_loop_recreates_credits`
+    + C01's `inv_credit_values` (lemmas: MW/Lemmas/PendHistCredRollback.lean, MW/Lemmas/LedgerCredVal.lean).  The statement
+    is the one the former `def` had. -/
+theorem C09_full_credit_relation :
   ∀ (rank : TxId → Nat) (E : MW.Lemmas.PendHist.HEnv) (w : MW.Lemmas.PendHist.HW) (evs : List MW.Lemmas.PendHist.HEv),
     MW.Lemmas.PendHist.Cred.HInvC rank E w →
     (∀ x ∈ MW.Lemmas.PendHist.worldsH E w evs,
       match x.2 with
       | .recv t => MW.Lemmas.PendHist.Cred.RecvDomC rank E x.1 t
       | ev => MW.Lemmas.PendHist.HOK rank E x.1 ev) →
-    MW.Lemmas.PendHist.Cred.CredRel E.env (MW.Lemmas.PendHist.runH E w evs).s (MW.Lemmas.PendHist.runH E w evs).sp.pend
+    MW.Lemmas.PendHist.Cred.CredRel E.env (MW.Lemmas.PendHist.runH E w evs).s (MW.Lemmas.PendHist.runH E w evs).sp.pend :=
+  MW.Lemmas.PendHist.CredRb.credit_relation_full
+
+/-- the hypotheses of `C09_full_credit_relation` are met by the fresh wallet and the history with a disconnect step -/
+example : ∀ x ∈ MW.Lemmas.PendHist.worldsH MW.Lemmas.PendHist.exE MW.Lemmas.PendHist.exW0 MW.Lemmas.PendHist.CredRb.exEvs6,
+    match x.2 with
+    | .recv t => MW.Lemmas.PendHist.Cred.RecvDomC MW.Lemmas.PendHist.exRankH MW.Lemmas.PendHist.exE x.1 t
+    | ev => MW.Lemmas.PendHist.HOK MW.Lemmas.PendHist.exRankH MW.Lemmas.PendHist.exE x.1 ev :=
+  MW.Lemmas.PendHist.CredRb.exDomainF_match
 
 /-- the former schematic statement over driver strings (kept for reference; `pending_refines` is its typed form) -/
 def C09_full_history_refinement (Domain : List (List String) → Prop)
